@@ -1,0 +1,54 @@
+//go:build verif
+// +build verif
+
+// Contracts for package buffered, read by /verif's govc (contract-based deductive verification).
+// This file contains comments only; it is compiled only under the build tag "verif" and adds no code.
+
+package buffered
+
+//@ import "github.com/kelindar/rate"
+
+// ---- C13: the buffered connection keeps byte order across direct and buffered writes --------------------------------
+// the bytes this connection has accepted so far, in order: what already went to the socket followed by what is still
+// queued in the write buffer (out(x): the ghost byte sequence a writer has accepted; net.Conn.Write and bytes.Buffer
+// are the assumed native models). A successful Write(p) appends exactly p to that sequence - whichever of the direct,
+// fill-and-flush or queue paths it takes - and a Flush moves queued bytes to the socket without reordering anything.
+//@ spec func total(m *Conn) int = len(out(m.socket)) + len(out(m.writer))
+//@ spec func at(m *Conn, i int) byte = iteByte(i < len(out(m.socket)), out(m.socket)[i], out(m.writer)[i-len(out(m.socket))])
+//@ spec func connOK(m *Conn) bool = m != nil && m.socket != nil && m.writer != nil && m.limit != nil && m.bufferSize >= 1 && m.bufferSize <= 1<<30 && len(out(m.writer)) <= m.bufferSize && distinctObj(m.socket, m.writer)
+//@ extern func (l *rate.Limiter) Limit() (b bool)
+//@   modifies
+//@ func (m *Conn) writeFull(p []byte) (nn int, err error)
+//@   requires connOK(m) && len(p) <= 1<<30
+//@   modifies out(m.socket)
+//@   loop 0: modifies out(m.socket)
+//@   loop 0: invariant 0 <= nn && nn <= old(len(p)) && sameSlice(p, old(p)[nn:]) && len(out(m.socket)) == old(len(out(m.socket))) + nn && m == old(m)
+//@   loop 0: invariant forall(i, 0, old(len(out(m.socket))), out(m.socket)[i] == old(out(m.socket)[i]))
+//@   loop 0: invariant forall(i, 0, nn, out(m.socket)[old(len(out(m.socket)))+i] == old(p[i]))
+//@   ensures err == nil ==> nn == old(len(p))
+//@   ensures len(out(m.socket)) == old(len(out(m.socket))) + nn && nn <= old(len(p)) && 0 <= nn
+//@   ensures forall(i, 0, old(len(out(m.socket))), out(m.socket)[i] == old(out(m.socket)[i]))
+//@   ensures forall(i, 0, nn, out(m.socket)[old(len(out(m.socket)))+i] == old(p[i]))
+//@ func (m *Conn) Flush() (n int, err error)
+//@   requires connOK(m)
+//@   modifies out(m.socket), out(m.writer)
+//@   ensures len(out(m.writer)) == 0 && m == old(m)
+//@   ensures err == nil ==> len(out(m.socket)) == old(total(m)) && forall(i, 0, old(total(m)), out(m.socket)[i] == old(at(m, i)))
+//@ func (m *Conn) Write(p []byte) (nn int, err error)
+//@   requires connOK(m) && len(p) <= 1<<30
+//@   modifies out(m.socket), out(m.writer), ghostInt(m.writer, "cap")
+//@   local n int
+//@   loop 0: modifies out(m.socket), out(m.writer), ghostInt(m.writer, "cap")
+//@   loop 0: invariant m != nil && m.socket != nil && m.writer != nil && m.limit != nil
+//@   loop 0: invariant m.bufferSize >= 1 && m.bufferSize <= 1<<30
+//@   loop 0: invariant len(out(m.writer)) <= m.bufferSize
+//@   loop 0: invariant distinctObj(m.socket, m.writer)
+//@   loop 0: invariant m == old(m) && 0 <= nn && nn <= old(len(p))
+//@   loop 0: invariant sameSlice(p, old(p)[nn:])
+//@   loop 0: invariant err == nil ==> total(m) == old(total(m)) + nn
+//@   loop 0: invariant err == nil ==> forall(i, 0, old(total(m)), at(m, i) == old(at(m, i)))
+//@   ensures err == nil ==> nn == old(len(p))
+//@   ensures err == nil ==> total(m) == old(total(m)) + nn
+//@   ensures err == nil ==> forall(i, 0, old(total(m)), at(m, i) == old(at(m, i)))
+// (that the len(p) bytes appended are p's bytes is proved for writeFull and Flush; for Write's combination of the three
+// paths the solvers do not discharge it within the budget: not claimed)
